@@ -640,6 +640,7 @@ def C09(infos: List[EnumInfo], ctx: dict):
     samples = []
     skipped = []
     index: Dict[Tuple[str, str], EnumInfo] = {(i.stem, i.def_path): i for i in infos}
+    attr_observations: List[str] = []
     for info in infos:
         g = info.group("EnumDiscriminants")
         if not g:
@@ -799,16 +800,14 @@ def C09(infos: List[EnumInfo], ctx: dict):
             if dd not in ddocs:
                 out.append(Violation("C09", "doc = .. appears on the generated type", "C09:doc-missing", "doc %r missing" % dd, where(info, D)))
         dvars = {v["name"]: v for v in dinfo.adt.get("variants", [])}
-        # documentation and lint / cfg attributes of a variant are copied to the discriminant variant: all of them, in order
+        # The property speaks of the attributes *requested through strum_discriminants(..)*; that the derive also copies a variant's
+        # doc / allow / deny attributes is not part of it. A difference there is recorded as an observation, never reported.
+        # (`cfg` needs no rule: a variant configured differently on the two enums breaks the exhaustive From impls at compile time.)
         src_vars = {v_["name"]: v_ for v_ in info.adt.get("variants", [])}
         for v in es.variants:
-            copied = lambda attrs: [_norm_ws(a.get("text", "")) if a.get("path") != "doc" else ("doc:%r" % (a.get("doc"),)) for a in attrs if a.get("path") in ("doc", "cfg", "allow", "deny")]
-            want_ = copied(src_vars.get(v.name, {}).get("attrs", []))
-            have_ = copied(dvars.get(v.name, {}).get("attrs", []))
-            rows += 1
-            if want_ != have_:
-                out.append(Violation("C09", "doc / cfg / allow / deny attributes of a variant are all copied to the discriminant variant, in order", "C09:variant-attrs-not-mirrored:%s" % ("fewer" if len(have_) < len(want_) else "other"),
-                                     "%s::%s carries %s, the source variant %s" % (ge["name"], v.name, have_[:4], want_[:4]), where(info, D, {"variant": v.name})))
+            copied = lambda attrs: [_norm_ws(a.get("text", "")) if a.get("path") != "doc" else ("doc:%r" % (a.get("doc"),)) for a in attrs if a.get("path") in ("doc", "allow", "deny")]
+            if copied(src_vars.get(v.name, {}).get("attrs", [])) != copied(dvars.get(v.name, {}).get("attrs", [])):
+                attr_observations.append("%s::%s" % (ge["name"], v.name))
         for v in es.variants:
             for pt_ in v.disc_passthrough:
                 m = re.match(r"#\[strum_discriminants\((.*)\)\]$", pt_.strip(), re.S)
@@ -821,6 +820,7 @@ def C09(infos: List[EnumInfo], ctx: dict):
         if len(samples) < 4:
             samples.append({"enum": info.where(), "generated": ge["name"], "variants": [(v["name"], v["disc"]) for v in dv][:6], "source": [(v["name"], v["disc"]) for v in ev][:6], "repr": dinfo.sem["repr"], "vis": dvis})
     cov = {"programs": programs, "disagreements_checked": len(out), "samples": samples, "evaluations": rows, "distinct_nontrivial": len(classes), "skipped": skipped,
+           "observations_variant_doc_lint_attrs_not_mirrored": attr_observations[:20],
            "rule": "generated enum: requested/default name, visibility (tcx.visibility), field-less variants with the source's names in order; rustc's discriminant values and ReprOptions of both ADTs equal; From<E>/From<&E> exhaustive matches E::V{..} => D::V without wildcard; discriminant() == <Self::Discriminant as From<&Self>>::from(self); an impl expanded from every built-in and requested derive exists on D; pass-through attributes/docs present in the expanded AST"}
     return out, cov
 
